@@ -67,6 +67,8 @@ type Run struct {
 
 // NewRun prepares a run.
 func NewRun(t *tape.Tape, prop, tier string, known map[string]bool) *Run {
+	// re-entrant seams (seams.go) in every single-task world
+	SeamInterludes, seamChanged, seamDepth = prop != "C18", "", 0
 	return &Run{T: t, Prop: prop, Tier: tier, Known: known,
 		Faults: map[string]int{}, Probes: map[string]int{}, KnownHits: map[string]string{}}
 }
@@ -315,7 +317,14 @@ func call(f func()) (lp *LibPanic) {
 // property under exploration is C06 (which handles panics itself via call).
 func (r *Run) Lib(f func()) {
 	r.Steps++
-	if lp := call(f); lp != nil {
+	lp := call(f)
+	if seamChanged != "" {
+		d := seamChanged
+		seamChanged = ""
+		r.Check()
+		r.Fail("content-changes-while-the-seam-holds-it", "the bytes go-cose handed to a Signer/Verifier changed during the call: %s", d)
+	}
+	if lp != nil {
 		if lp.Class == "seam-panic" {
 			// raised by a stub on purpose and passed on by go-cose: the world
 			// asks with TakeSeamPanic
